@@ -582,13 +582,16 @@ class Body:
         toks = self.toks
         spans = stmt_spans(toks, self.open, self.close)
         sp = [t.text for t in lex(start_prefix)]
+        before = end_prefix.strip().startswith("<")     # "<prefix": the fragment ends just BEFORE the statement with that prefix
+        if before:
+            end_prefix = end_prefix.strip()[1:]
         ep = [t.text for t in lex(end_prefix)] if end_prefix.strip() != "$" else []
         si = ei = None
         for k, (s, e) in enumerate(spans):
             if si is None and [t.text for t in toks[s:s + len(sp)]] == sp:
                 si = k
             if si is not None and end_prefix.strip() != "$" and [t.text for t in toks[s:s + len(ep)]] == ep:
-                ei = k
+                ei = k - 1 if before else k
                 break
         if si is not None and end_prefix.strip() == "$":
             ei = len(spans) - 1
